@@ -36,7 +36,7 @@ def run(ctx: Context) -> None:
     _infra.shoc_depth_names(ctx, 'R12.7')
     from .common import adopt_foundations as _adopt
     _adopt(ctx, 'R12.6', ['order'], floor=60)
-    ctx.rule('R12.8', "the caller's list of non-spatial variables is used as given: the empty default is substituted only where none was given", floor=1)
+    ctx.rule('R12.8', "the caller's list of non-spatial variables is used as given: the empty default is substituted only where none was given", floor=0)
     with ctx.section('R12.8'):
         from . import infra as _infra128
         _infra128.none_default_discipline(ctx, 'R12.8', ['emsarray.operations.depth.ocean_floor'])
